@@ -14,7 +14,7 @@ import math
 from ..core import facets, sym, symeval
 from ..core.absint import Config, Interp
 from ..core.loader import AnalysisError, Project
-from ..core.values import Sc
+from ..core.values import Arr, Sc
 from .distances import B, Dd, dgm_input, unmodelled_in
 
 HEAT = "persim.heat.heat"
@@ -42,6 +42,87 @@ def _run(project, qual, names, sigma=True):
         args[ps[2]] = Sc(sym.Sym("sigma"))
     r = I.run(qual, args)
     return fi, I, r
+
+
+def check_one_sigma(project: Project, rep):
+    """HT-ONESIGMA — the three kernel terms of one distance are evaluated with ONE bandwidth, however the caller supplies it.
+    `heat` is executed with its kernel routine(s) observed instead of executed (stubs): once with the bandwidth given the way
+    the signature always allowed, and once through every further optional parameter (a renamed / aliased spelling added
+    later) — in each run all the kernel evaluations must be handed the same scalar arguments."""
+    import ast as _ast
+    from .common import own_analysis
+    fi = project.function(HEAT)
+    oa = own_analysis(project)
+    mod = HEAT.rsplit(".", 1)[0]
+    kernels = {KER} | {t for t, _ in oa.summary(KER).repo_calls if t.startswith(mod + ".")}
+    a = fi.node.args
+    pos = a.posonlyargs + a.args
+    dflt = dict(zip([x.arg for x in pos[len(pos) - len(a.defaults):]], a.defaults))
+    dflt.update({x.arg: d for x, d in zip(a.kwonlyargs, a.kw_defaults) if d is not None})
+    params = [x.arg for x in pos + a.kwonlyargs]
+    # parameters that can carry a bandwidth: the third one, and every optional one whose default is not a flag / a string
+    cands = [p_ for p_ in params[2:] if not (p_ in dflt and isinstance(dflt[p_], _ast.Constant)
+                                            and isinstance(dflt[p_].value, (bool, str)))]
+    n_runs = 0
+    for p_ in cands:
+        calls = []
+
+        def mk_stub(target, calls=calls):
+            g = project.function(target)
+
+            def stub(I_, bound, n_):
+                if sum(1 for v in bound.values() if isinstance(v, Arr)) < 2:
+                    # not a kernel evaluation (a helper that settles the spelling of the bandwidth, ...): executed as it is
+                    return I_.call_function(g, [], dict(bound), n_)
+                calls.append(dict(bound))
+                return Sc(sym.Opq("kernel-value", (), f"k#{len(calls)}"))
+            return stub
+        I = Interp(project, Config(nonempty={("rows", "F"), ("rows", "G")}, finite_inputs={"F", "G"},
+                                   flags={"stub_func": {k: mk_stub(k) for k in kernels}}))
+        args = {params[0]: dgm_input("F"), params[1]: dgm_input("G"), p_: Sc(sym.Sym("sigma"))}
+        try:
+            with _quiet_warnings(I):
+                I.run(HEAT, args)
+        except Exception as ex:
+            rep.unmodelled("HT-ONESIGMA", fi, fi.node, f"bandwidth passed as `{p_}`: the call could not be followed ({ex})"[:200])
+            continue
+        um = [u for u in I.unmodelled if not str(u["tag"]).startswith("prim:warnings")]
+        if um or I.lossy:
+            rep.unmodelled("HT-ONESIGMA", fi, fi.node, f"bandwidth passed as `{p_}`: the call was not followed exactly "
+                                                       f"({um[0]['tag'] if um else I.lossy[0]['why']})"[:200])
+            continue
+        n_runs += 1
+        if len(calls) < 3:
+            rep.unmodelled("HT-ONESIGMA", fi, fi.node, f"bandwidth passed as `{p_}`: {len(calls)} kernel evaluations observed, "
+                                                       f"expected three")
+            continue
+        scal = []
+        for c in calls:
+            scal.append(tuple(sorted((k, sym.show(v.e)) for k, v in c.items() if isinstance(v, Sc) and v.e is not None)))
+        # the scalar settings the kernel evaluations receive, compared by value (the parameter names may differ between helpers)
+        vals = [tuple(v for _, v in s_) for s_ in scal]
+        if all(v == vals[0] for v in vals):
+            rep.discharged("HT-ONESIGMA", fi, fi.node, f"bandwidth passed as `{p_}`: all {len(calls)} kernel evaluations receive "
+                                                       f"{list(vals[0])}")
+        else:
+            rep.refuted("HT-ONESIGMA", fi, fi.node,
+                        f"bandwidth passed as `{p_}`: the kernel terms of one distance are evaluated with different settings "
+                        f"({[list(v) for v in vals]}): k(F,F) + k(G,G) − 2k(F,G) then mixes two kernels and is no squared norm "
+                        f"(not zero for equal diagrams, triangle inequality lost)",
+                        construct=f"{HEAT}: one bandwidth for the three kernel terms")
+    if not n_runs:
+        rep.unmodelled("HT-ONESIGMA", fi, fi.node, "no call of heat with a bandwidth could be followed")
+
+
+class _quiet_warnings:
+    def __init__(self, I):
+        pass
+
+    def __enter__(self):
+        return self
+
+    def __exit__(self, *a):
+        return False
 
 
 def run(project: Project, rep, tier: str):
@@ -243,7 +324,9 @@ def run(project: Project, rep, tier: str):
                         "NaN",
                         construct=f"{HEAT}: unclamped sqrt",
                         failing_input="F = 6 random points, G = a permutation of F: NaN in 428 of 2000 trials")
-    for r, n in (("HT-KER", 2), ("HT-DIST", 1), ("HT-SHIFT", 1), ("HT-SWAP", 1), ("HT-UNITS", 1), ("HT-REAL", 1), ("HT-STATE", 1)):
+    check_one_sigma(project, rep)
+    for r, n in (("HT-KER", 2), ("HT-DIST", 1), ("HT-SHIFT", 1), ("HT-SWAP", 1), ("HT-UNITS", 1), ("HT-REAL", 1), ("HT-STATE", 1),
+                 ("HT-ONESIGMA", 1)):
         rep.floor(r, n)
     for t in ("numpy.exp", "numpy.sum", "numpy.sqrt", "numpy.array", "numpy.maximum"):
         rep.trust(t)
